@@ -249,11 +249,13 @@ mod ho {
 pub const LETTERS: &[&str] = &[
     "compile-ok", "compile-ok-other-dialect", "compile-lex-error", "compile-resolve-error", "compile-sql-error", "compile-panicking-input", "log-start", "log-finish", "logged-compile", "version-override-toggle",
     // the dialect-sensitive program under four dialects whose keyword sets and quoting rules differ
-    "compile-names-redshift", "compile-names-postgres", "compile-names-mssql", "compile-names-bigquery",
+    "compile-names-redshift", "compile-names-postgres", "compile-names-mssql", "compile-names-bigquery", "compile-names-mysql",
 ];
 
 /// identifiers that are reserved words in some dialects only, a name needing quotes, dialect-specific operators
-const DIALECT_SENSITIVE: &str = "from logs | select {host, tag, percent, identity, `system`, `user`, `my col`, x = a // b} | filter tag == 'x' | sort {-percent} | take 3";
+/// (operators whose SQL template — and binding strength — differs between dialects, each also as the right operand of
+/// another operator, where the parentheses depend on that strength)
+const DIALECT_SENSITIVE: &str = "from logs | select {host, tag, percent, identity, `system`, `user`, `my col`, x = a // b, y = c % (a // b), z = c * (a % b), w = c - (a // b) - (a % b), v = c / (a % b) // (a + b), ok = (all_ok | as bool) && (a % b) == 0} | filter tag == 'x' | sort {-percent} | take 3";
 
 fn names_probe_dialects() -> Vec<Dialect> {
     vec![Dialect::Generic, Dialect::Postgres, Dialect::Redshift, Dialect::MsSql, Dialect::BigQuery, Dialect::SQLite, Dialect::MySql, Dialect::Snowflake, Dialect::DuckDb, Dialect::ClickHouse, Dialect::Ansi, Dialect::GlareDb]
@@ -293,11 +295,12 @@ fn apply_letter(l: &str) {
             let _ = guard(|| prqlc::compile(PROBES[1], &o));
             let _ = guard(prqlc::debug::log_finish);
         }
-        "compile-names-redshift" | "compile-names-postgres" | "compile-names-mssql" | "compile-names-bigquery" => {
+        "compile-names-redshift" | "compile-names-postgres" | "compile-names-mssql" | "compile-names-bigquery" | "compile-names-mysql" => {
             let d = match l {
                 "compile-names-redshift" => Dialect::Redshift,
                 "compile-names-postgres" => Dialect::Postgres,
                 "compile-names-mssql" => Dialect::MsSql,
+                "compile-names-mysql" => Dialect::MySql,
                 _ => Dialect::BigQuery,
             };
             let _ = guard(|| prqlc::compile(DIALECT_SENSITIVE, &o.clone().with_target(Target::Sql(Some(d)))));
